@@ -41,7 +41,11 @@
 /*
  * Number of entries in the per-thread defer queue. Must be power of 2.
  */
+#if defined(URCU_VERIF) && defined(URCU_VERIF_DEFER_QUEUE_SIZE)
+# define DEFER_QUEUE_SIZE URCU_VERIF_DEFER_QUEUE_SIZE
+#else
 #define DEFER_QUEUE_SIZE	(1 << 12)
+#endif
 #define DEFER_QUEUE_MASK	(DEFER_QUEUE_SIZE - 1)
 
 /*
